@@ -179,8 +179,16 @@ def reachable_mutables(o, acc=None):
 PLAIN_SCALARS = (type(None), bool, int, float, Decimal, str)
 
 
-def type_walk(o, is_allowed_callable, path='$', _seen=None):
-    """Return None if o is plain data (or an allowed callable), else (path, type name) of the first offender."""
+def type_walk(o, is_allowed_callable, path='$', _seen=None, _budget=None):
+    """Return None if o is plain data (or an allowed callable), else (path, type name) of the first offender.
+    At most 40000 nodes of one value are visited (a value that big has been walked piece by piece as it was built)."""
+    if _budget is None:
+        _budget = [40000]
+    _budget[0] -= 1
+    if _budget[0] < 0:
+        return None
+    if len(path) > 400:
+        path = path[:60] + '...' + path[-60:]
     if isinstance(o, PLAIN_SCALARS):
         # subclasses of the scalar types other than the language's Decimal are suspicious
         t = type(o)
@@ -194,21 +202,24 @@ def type_walk(o, is_allowed_callable, path='$', _seen=None):
         if id(o) in _seen:
             return None
         _seen.add(id(o))
+        keep = getattr(_seen, 'keep', None)
+        if keep is not None:
+            keep.append(o)          # a persistent seen-set keeps what it has seen alive (ids are not reused meanwhile)
         if t is dict:
             for k, v in o.items():
-                r = type_walk(k, is_allowed_callable, path + '.key', _seen) or \
-                    type_walk(v, is_allowed_callable, '%s[%r]' % (path, k if isinstance(k, str) else '?'), _seen)
+                r = type_walk(k, is_allowed_callable, path + '.key', _seen, _budget) or \
+                    type_walk(v, is_allowed_callable, '%s[%r]' % (path, k if isinstance(k, str) else '?'), _seen, _budget)
                 if r:
                     return r
             return None
         for i, v in enumerate(o):
-            r = type_walk(v, is_allowed_callable, '%s[%d]' % (path, i), _seen)
+            r = type_walk(v, is_allowed_callable, '%s[%d]' % (path, i), _seen, _budget)
             if r:
                 return r
         return None
     if t is slice:
         for part, name in ((o.start, 'start'), (o.stop, 'stop'), (o.step, 'step')):
-            r = type_walk(part, is_allowed_callable, path + '.' + name, _seen)
+            r = type_walk(part, is_allowed_callable, path + '.' + name, _seen, _budget)
             if r:
                 return r
         return None
